@@ -5,7 +5,8 @@ Bytes: lower-case hex, `-` = empty.
   script  : entries joined by `;`, each `<mode>:<nf>:<pieces>`; pieces = hex joined by `,`, `.` = no piece;
             the k-th request uses entry `k mod len`
   ops     : joined by `,`: `d<hex>` delivery, `f` the application finishes the request it holds,
-            `p`/`r` the transport pauses/resumes the channel, `l` connectionLost
+            `p`/`r` the transport pauses/resumes the channel, `l` connectionLost,
+            `x` the application calls `loseConnection()` on the request it holds
   request : `<method>/<target>/<version>/<headers>/<body>`, headers `name=value&value|name=value` (`.` = none)
 -/
 namespace Twisted.Http.ChannelWire
@@ -39,7 +40,7 @@ def decEntry (s : String) : Option Entry :=
     let m ← m.toNat?
     let n ← n.toNat?
     let ps ← if ps = "." then some [] else (ps.splitOn ",").mapM decHex
-    if m > 3 then none else pure { mode := m, nf := n, pieces := ps }
+    if m > 5 then none else pure { mode := m, nf := n, pieces := ps }
   | _ => none
 
 def decScript (s : String) : Option (Nat → Entry) := do
@@ -53,6 +54,7 @@ def decOp (s : String) : Option Op :=
   | ['p'] => some .pause
   | ['r'] => some .resume
   | ['l'] => some .lose
+  | ['x'] => some .close
   | 'd' :: rest => (decHex (String.ofList rest)).map .data
   | _ => none
 
